@@ -75,7 +75,9 @@ M == Batch[iid]
 \* ------------------------------------------------------------------ instance helpers
 IsAbs(m, s)     == m.abs[s] = 1
 ActSeq(m, s)    == SelectSeq([a \in 1..m.K |-> a], LAMBDA a : m.avail[s][a] = 1)         \* mdp.actions(s)
-Listed(m, s, a) == {t \in St(m) : m.P[s][a][t] > 0 \/ m.zl[s][a][t] = 1}                  \* dist.support
+\* dist.support; field `eg` (empty ghosts): next_state_dist of an absorbing state is the EMPTY distribution
+Listed(m, s, a) == IF "eg" \in DOMAIN m /\ m.abs[s] = 1 THEN {}
+                   ELSE {t \in St(m) : m.P[s][a][t] > 0 \/ m.zl[s][a][t] = 1}
 ListSeq(m, s, a) == SeqOfSet(Listed(m, s, a), m.N)                                        \* ... in its own order
 InitListed(m)   == {s \in St(m) : m.p0[s] > 0 \/ m.z0[s] = 1}
 NNonAbs(m)      == Cardinality(NonAbs(m))
@@ -317,7 +319,16 @@ LadderReturn(m, i) ==
            g  == m.gs[e.g]
            pv == PolicyValue(g, LW(g, [s \in NonAbs(g) |-> {a \in Ac(g) : e.pol[s][a] = 1}]), 6)
        IN RAdd(RScale(e.cnt, pv[Entry(g)]), LadderReturn(m, i - 1))
+\* optional field q < 0: every rung also has a "quit" action that moves to the goal at once and pays q; LadderOK
+\* demands q < value of rung 1 <= value of every rung, so quitting is strictly worse everywhere, the optimal values
+\* are unchanged and a policy that quits on some rung (m.quits > 0) is not optimal.  Revising such a ladder as a
+\* whole, policy iteration from the uniform policy prefers quitting wherever the rungs above still mix in quitting:
+\* "climb" becomes attractive about one rung further from the top per improvement round.
+Quit(m) == IF "q" \in DOMAIN m THEN m.q ELSE 0
+\* signature predicate: the revision of the whole ladder needs more improvement rounds than the budget
+NeedsMoreRoundsThan(m, budget) == Quit(m) < 0 /\ m.n > budget
 LadderOK(m) ==
+  /\ Quit(m) <= 0 /\ (Quit(m) < 0 => RLess(<<Quit(m), 1>>, LadderValues(m, vstar)[1]))
   /\ m.n >= 1 /\ Len(m.gs) >= 1 /\ m.hc >= 0                   \* the constant heuristic hc bounds values that are <= 0
   /\ \A i \in 1..Len(m.gs) : LET g == m.gs[i] IN
         /\ WF(g) /\ g.GN = g.GD /\ Cardinality(NonAbs(g)) = 1 /\ Cardinality(ExplAbs(g)) = 1
@@ -326,7 +337,7 @@ LadderOK(m) ==
         /\ Proper(g)
         /\ \A s \in NonAbs(g) : \A a \in Avail(g, s) : \A t \in St(g) : g.P[s][a][t] > 0 => g.R[s][a][t] <= 0
   /\ m.polok = 1 => /\ \A i \in 1..Len(m.pols) : m.pols[i].g \in 1..Len(m.gs) /\ m.pols[i].cnt >= 1
-                    /\ SumTo([i \in 1..Len(m.pols) |-> m.pols[i].cnt], Len(m.pols)) = m.n
+                    /\ (m.quits = 0 => SumTo([i \in 1..Len(m.pols) |-> m.pols[i].cnt], Len(m.pols)) = m.n)
 ChainStep ==
   /\ Mode = "chain" /\ phase = "init" /\ phase' = "done"
   /\ UNCHANGED <<iid, cfg, inits, nodes, cur, lastZ, l, vstar, hist, note>>
@@ -451,9 +462,10 @@ Emit ==
       PrintT(ToJson([kind |-> "oracle", iid |-> iid, v |-> vstar, vinit |-> VInit, filter |-> Filter(M)]))
     ELSE IF Mode = "chain" THEN
       LET lv  == LadderValues(M, vstar)
-          ret == IF M.polok = 1 THEN LadderReturn(M, Len(M.pols)) ELSE UNAV
+          ret == IF M.polok = 1 /\ M.quits = 0 THEN LadderReturn(M, Len(M.pols)) ELSE UNAV
       IN PrintT(ToJson([kind |-> "chain", iid |-> iid, tag |-> M.tag, lv |-> lv, gv |-> vstar, ret |-> ret,
-                        polopt |-> IF M.polok = 1 /\ ret = lv[1] THEN 1 ELSE 0]))
+                        over100 |-> IF NeedsMoreRoundsThan(M, 100) THEN 1 ELSE 0,
+                        polopt |-> IF M.polok = 1 /\ M.quits = 0 /\ ret = lv[1] THEN 1 ELSE 0]))
     ELSE IF Mode = "mc" THEN
       (IF phase = "done" /\ KeepHist THEN
          PrintT(ToJson([kind |-> "mc", iid |-> iid, hk |-> cfg.hk, inits |-> inits, its |-> l, hist |-> hist,
